@@ -20,6 +20,7 @@ var c19Tokens = []string{
 	"assemble", "cmdline", "unix", "include", "define", "--",
 	"(", ")", `\(`, `\)`, "?i:", "?-s:", "(?i)", "[", "]", "{", "}", "{{", "}}",
 	"|", `\`, `"`, "*", "\x01", "é", "\xff",
+	`\(?i:`, `\(?s:`, "(?i:x)", "(?s:.)", ".",
 }
 
 // line-level alphabet: whole lines, well-formed and malformed directives
